@@ -14,8 +14,22 @@ def emittedDefault (p : Param) : Val :=
   | some d => if ClassAttr.isNoneType d then .str noneStr else
       (match setValue d with | .none => .str noneStr | v => v)
 
+/-- a negative number (after unparse / re-parse it is a `UnaryOp`, not a `Constant`) -/
+def isNegNum : Val → Bool
+  | .int neg d => neg && !isZeroDigits d
+  | .float t => startsWith t ['-']
+  | _ => false
+
+/-- a negative numeric default under a str-mentioning type: `_infer_default` neither unwraps nor evaluates the
+    `UnaryOp` node, it stays in the description (recorded finding) -/
+def negUnderStr (p : Param) : Bool :=
+  match p.default with
+  | some v => isNegNum v && (match needsQuoting p.typ with | .ok q => q | _ => true)
+  | none => false
+
 /-- one parameter: annotation = the declared type (inline), default as above, `_infer_default` on the way back -/
 def funcRT (p : Param) : Res Param :=
+  if negUnderStr p then .unmodelled "a negative number under a str-mentioning type stays an ast node" else
   (ClassAttr.inferDefault p.typ (emittedDefault p)).bind fun r => .ok { p with typ := r.1, default := some r.2 }
 
 theorem funcRT_nodefault (p : Param) (t : Str) (q : Bool) (ht : p.typ = some t) (hq : needsQuoting (some t) = .ok q)
@@ -23,20 +37,27 @@ theorem funcRT_nodefault (p : Param) (t : Str) (q : Bool) (ht : p.typ = some t) 
   have he : emittedDefault p = .str noneStr := by
     unfold emittedDefault
     rcases hd with h | h | h <;> rw [h] <;> simp [ClassAttr.isNoneType]
+  have hn : negUnderStr p = false := by
+    unfold negUnderStr
+    rcases hd with h | h | h <;> rw [h] <;> simp [isNegNum]
   unfold funcRT
-  rw [he, ht, inferDefault_noneStr t q hq]
+  rw [hn, he, ht, inferDefault_noneStr t q hq]
   rfl
 
 theorem funcRT_num (p : Param) (t : Str) (q : Bool) (v : Val) (ht : p.typ = some t)
-    (hq : needsQuoting (some t) = .ok q) (hv : numOk v) (hd : p.default = some v) :
+    (hq : needsQuoting (some t) = .ok q) (hv : numOk v) (hd : p.default = some v) (hneg : isNegNum v = false ∨ q = false) :
     funcRT p = .ok { p with typ := some t, default := some v } := by
   have he : emittedDefault p = v := by
     unfold emittedDefault
     rw [hd]
     simp only [isNoneType_num v hv, Bool.false_eq_true, if_false, setValue_num v hv]
     cases v <;> simp_all [numOk]
+  have hn : negUnderStr p = false := by
+    unfold negUnderStr
+    rw [hd, ht, hq]
+    rcases hneg with h | h <;> simp [h]
   unfold funcRT
-  rw [he, ht, inferDefault_num t q v hq hv]
+  rw [hn, he, ht, inferDefault_num t q v hq hv]
   rfl
 
 theorem setValue_plain (s : Str) (hq : quoteDelimited s = false) : setValue (.str s) = .str s := by
@@ -67,15 +88,17 @@ theorem funcRT_str (p : Param) (t s : Str) (q : Bool) (ht : p.typ = some t) (hq 
     rw [hd]
     have : ClassAttr.isNoneType (.str s) = false := by simp [ClassAttr.isNoneType, hn1, hn2]
     simp only [this, Bool.false_eq_true, if_false, setValue_plain s hqd]
+  have hn : negUnderStr p = false := by
+    unfold negUnderStr; rw [hd]; simp [isNegNum]
   unfold funcRT
-  rw [he, ht, inferDefault_str t q s hq hs']
+  rw [hn, he, ht, inferDefault_str t q s hq hs']
   rfl
 
 /-- the typed part of the function domain, by shape of the default -/
 inductive FuncDom (p : Param) : Prop where
   | noDefault (t : Str) (q : Bool) (ht : p.typ = some t) (hq : needsQuoting (some t) = .ok q) (hd : ClassAttr.noDefault p)
   | num (t : Str) (q : Bool) (v : Val) (ht : p.typ = some t) (hq : needsQuoting (some t) = .ok q) (hv : numOk v)
-      (hd : p.default = some v)
+      (hd : p.default = some v) (hneg : isNegNum v = false ∨ q = false)
   | str (t s : Str) (q : Bool) (ht : p.typ = some t) (hq : needsQuoting (some t) = .ok q) (hs : strOk s)
       (hd : p.default = some (.str s))
 
@@ -92,8 +115,8 @@ theorem funcRT_eq_norm (p : Param) (h : FuncDom p) : funcRT p = .ok (normFuncPar
   cases h with
   | noDefault t q ht hq hd =>
     rw [funcRT_nodefault p t q ht hq hd, normFunc_noDefault p hd, with_typ p t _ ht]
-  | num t q v ht hq hv hd =>
-    rw [funcRT_num p t q v ht hq hv hd, normFunc_literal p v hd (isNoneVal_num v hv), with_typ_default p t v ht hd]
+  | num t q v ht hq hv hd hneg =>
+    rw [funcRT_num p t q v ht hq hv hd hneg, normFunc_literal p v hd (isNoneVal_num v hv), with_typ_default p t v ht hd]
   | str t s q ht hq hs hd =>
     have hn : isNoneVal (.str s) = false := by
       obtain ⟨_, _, hn1, hn2, _⟩ := hs
@@ -101,7 +124,7 @@ theorem funcRT_eq_norm (p : Param) (h : FuncDom p) : funcRT p = .ok (normFuncPar
     rw [funcRT_str p t s q ht hq hs hd, normFunc_literal p _ hd hn, with_typ_default p t _ ht hd]
 
 example : FuncDom { doc := some ['x'], typ := some tInt, default := some (.int false ['0']) } :=
-  .num tInt false (.int false ['0']) rfl (by decide) trivial rfl
+  .num tInt false (.int false ['0']) rfl (by decide) trivial rfl (Or.inl rfl)
 example : FuncDom { doc := some ['x'], typ := some "Optional[str]".toList, default := none } :=
   .noDefault "Optional[str]".toList true rfl (by decide) (Or.inl rfl)
 
